@@ -5,14 +5,17 @@ import shutil
 import warnings
 
 from harness import comp_options as C
+from translate import optionsclass as TC
 from vlib import core
 
-PROPS = "Props/C20.v"
-THEOREMS = ["C20_user_wins", "C20_user_value_survives_loads", "C20_dependent_defaults_see_user_value",
+PROPS = ["Props/C20.v", "Props/C20src.v"]
+THEOREMS = ["C20_load_is_source", "C20_load_frame_is_source", "C20_init_order_is_source", "C20_validate_is_source", "C20_wf_preserved",
+            "C20_class_is_source", "C20_read_config_pinned",
+            "C20_user_wins", "C20_user_value_survives_loads", "C20_dependent_defaults_see_user_value",
             "C20_unknown_rejected", "C20_reserved_name_rejected", "C20_validate_exact", "C20_no_leak",
             "C20_defaults_for_own_D", "C20_caller_dict_untouched", "real_files_dependencies_ok",
             "real_files_depends_on_D_exact", "C20_real_files", "C20_real_files_unknown_rejected"]
-TRANSLATORS = ["options", "option_reads"]
+TRANSLATORS = ["options", "option_reads", "optionsclass"]
 LEVEL = "proof"
 RULE = ("T1: random op sequences (Init/Load/Validate over 1-3 Options objects, with and without passing D, 1-3 synthetic ini "
         "files whose defaults read D and other keys in any order, user dicts with known/unknown/reserved names) on the real "
@@ -20,12 +23,20 @@ RULE = ("T1: random op sequences (Init/Load/Validate over 1-3 Options objects, w
         "at least once (all-names sweep, D cycling 1..6) + random override subsets (sizes 0..all) + misspelt names + the "
         "reserved-name corner + 2-3 instances with different D/overrides constructed (and run) in random orders; values "
         "classified as caller's-object / default-for-D=d (same source text re-evaluated in a fresh namespace) / adjusted / "
-        "missing. A case is non-trivial when it has a user override, an unknown name, or more than one instance.")
+        "missing. A case is non-trivial when it has a user override, an unknown name, or more than one instance. "
+        "source: the class Options and the option statements of BADS.__init__ are re-translated on every run (translate/optionsclass.py -> "
+        "coq/gen/Src_optionsclass.v), proved equal to Model/Options.v's step / run / construct for all worlds (Props/C20src.v), and the GENERATED "
+        "programs are evaluated by Coq on every T1 and T2 case next to the hand-written model, both against the real class")
 TRUSTED = [
     "Coq 8.16.1 kernel + vm_compute (case evaluation, the three real_files_* computations); no native_compute",
     "translate/options.py: configparser rules copied from _read_config_file; Python-ast free-name analysis of the default "
     "expressions (whitelist; lambdas/generators mentioning D or self are rejected, which justifies modelling defaults as eagerly evaluated)",
-    "hand-written model Model/Options.v of options.py + BADS.__init__ l.171-186, tied by T1 (exact) and T2 (observational classification)",
+    "hand-written model Model/Options.v of options.py + BADS.__init__ l.171-186, tied by T1 (exact) and T2 (observational classification); its Init / Load / "
+    "Validate steps and construct are PROVED equal to the programs regenerated from the source (C20_init_order_is_source, C20_load_is_source, C20_validate_is_source, C20_class_is_source)",
+    "translate/optionsclass.py (fail-closed ast whitelist over class Options and the option statements of BADS.__init__; census of every constructor / loader / "
+    "validator call and every store to an `.options` attribute in the package) and the meaning Model/OptionsSrc.v gives to each whitelisted statement (MutableMapping.update / get / keys "
+    "through the pass-through __setitem__/__getitem__/sorted __iter__; eval(value) in the method's frame = module globals + self; exec into globals()) - validated on every run: "
+    "run_src / run_construct of the generated programs are evaluated by Coq on every T1 / T2 case and compared with the real class; _read_config_file is pinned as text (C20_read_config_pinned)",
     "defaults are uninterpreted: WHAT an expression computes is not modelled; T2 compares with the same source text evaluated by CPython in a fresh namespace",
     "Python object identity is modelled by tags (VUser) and one heap of caller dicts; mutable values INSIDE a caller dict are shared by reference (shallow copy) — covered by the harness' deep hash, not by a theorem",
     "x0/bounds arrays are outside the model: the clause 'never mutates the caller's x0/bounds arrays' is checked by hashing only (construct and short optimize, 4 spellings, on-bound starting points)",
@@ -61,6 +72,40 @@ def _notes_json(notes):
     return out
 
 
+REQUIRES_SRC = C.REQUIRES + ["PV.Model.OptionsSrc", "PV.gen.Src_optionsclass"]
+SRC_OBL = "correspondence:optionsclass_source"
+
+
+def _src_tie(ctx, broken, label, name, case_ty, ok_fun, cases, shard, bad_model, describe):
+    """The translator is checked, not trusted: the GENERATED programs (run_src / run_construct over coq/gen/Src_optionsclass.v) on the same
+    literals as the hand-written model, against the real class.  -> list of differing indices, or None when there is no generated program."""
+    obl = f"{SRC_OBL}({label})"
+    if not TC.generated_ok():
+        ctx.oblige(obl, "correspondence", False, "no generated program: coq/gen/Src_optionsclass.v holds no definition (translator raised)")
+        if not any(n_ == "translate:optionsclass" for n_, _ in broken):
+            broken.append((obl, "the generated program could not be evaluated: translator raised"))
+        return None
+    okc, bad, log = core.run_cases(name, REQUIRES_SRC, case_ty, ok_fun, cases, shard=shard)
+    ctx.count(len(cases), 0)
+    good = ctx.oblige(obl, "correspondence", okc and not bad,
+                      f"generated programs (coq/gen/Src_optionsclass.v) vs real class: {len(bad)} of {len(cases)} cases differ; " + log[-300:])
+    if not good:
+        i = bad[0] if bad else 0
+        broken.append((obl, f"the program translated from the source and the real class differ on {label} case {i}: " + describe(i)[:700]
+                       + ("  [the hand-written model agrees with the real class here: TRANSLATOR fault]" if (okc and i not in bad_model) else "")
+                       + ("" if okc else "  [case files did not compile: " + log[-200:] + "]")))
+        ctx.coverage.setdefault("source_first_difference", {})[label] = describe(i)[:900]
+    return bad if okc else None
+
+
+def _src_note(bad_src, i):
+    if bad_src is not None and i not in bad_src:
+        d = TC.diff(TC.current()[0])
+        return ("  [the program regenerated from the current source AGREES with the real class on this case: the source has changed, "
+                "Model/Options.v no longer describes it" + ("; " + "; ".join(x["what"][:160] for x in d[:2]) if d else "") + "]")
+    return ""
+
+
 def _t1(ctx, broken, n):
     cases, scs, dist = [], [], {}
     for i in range(n):
@@ -80,6 +125,8 @@ def _t1(ctx, broken, n):
     ctx.coverage["t1_op_outcomes"] = dist
     ctx.sample(dict(t1_scenario=scs[1][0], t1_dump=str(scs[1][2])[:600]))
     okc, bad, log = core.run_cases("C20_t1", C.REQUIRES, C.T1_CASE_TY, C.T1_OK, cases, shard=max(40, n // 12))
+    bad_src = _src_tie(ctx, broken, "T1", "C20_t1_src", C.T1_CASE_TY, "t1_ok_src src_class", cases, max(40, n // 12), bad,
+                       lambda j: json.dumps(scs[j][0])[:500] + " real: " + str(scs[j][2])[:300])
     good = ctx.oblige("correspondence:Options-class(T1)", "correspondence", okc and not bad,
                       f"{len(bad)} of {n} op sequences differ; " + log[-400:])
     if not good:
@@ -87,7 +134,7 @@ def _t1(ctx, broken, n):
         sc, ex, dump = scs[i]
         broken.append(("correspondence:Options-class(T1)",
                        f"Model/Options.v and the real Options class differ on op sequence {i}: " + json.dumps(sc)[:700]
-                       + " real: " + str(dump)[:500]))
+                       + " real: " + str(dump)[:500] + _src_note(bad_src, i)))
         ctx.coverage["t1_first_difference"] = dict(scenario=sc, real=str(dump))
     return len(cases) - len(bad)
 
@@ -182,6 +229,8 @@ def _t2(ctx, broken):
     if missing:
         broken.append(("coverage:every-option-name-overridden", f"generator did not override {sorted(missing)[:8]}"))
     okc, bad, log = core.run_cases("C20_t2", C.REQUIRES, C.T2_CASE_TY, C.T2_OK, cases, shard=max(25, len(cases) // 12))
+    bad_src = _src_tie(ctx, broken, "T2", "C20_t2_src", C.T2_CASE_TY, "t2_ok_src src_class src_construct basic_entries advanced_entries", cases,
+                       max(25, len(cases) // 12), bad, lambda j: kept[j][0] + " scenario " + json.dumps(kept[j][1])[:600])
     ctx.coverage["traces_validated_against_impl"] = len(cases) - len(bad)
     good = ctx.oblige("correspondence:BADS-options(T2)", "correspondence", okc and not bad,
                       f"{len(bad)} of {len(cases)} scenarios differ; " + log[-400:])
@@ -190,7 +239,7 @@ def _t2(ctx, broken):
         kind, sc, steps = kept[i]
         if not [v for v in ctx.violations if v["concrete"]]:
             broken.append(("correspondence:BADS-options(T2)",
-                           f"Model/Options.v and BADS.options differ on {kind} scenario {i}: " + json.dumps(sc)[:900]))
+                           f"Model/Options.v and BADS.options differ on {kind} scenario {i}: " + json.dumps(sc)[:900] + _src_note(bad_src, i)))
         else:
             broken.append(("correspondence:BADS-options(T2)", "model and BADS.options differ (concrete input found)"))
         ctx.coverage["t2_first_difference"] = dict(kind=kind, scenario=sc)
@@ -297,26 +346,68 @@ def tie(ctx, broken):
     ctx.coverage["traces_validated_against_impl"] = done
 
 
+AIM = {   # part of the class that changed -> scenario kinds that exercise it first (the monitor decides, independently of model and translator)
+    "load": ["multi", "multi", "subset", "multi-run"],             # WHEN D is bound / which entries a load skips: several instances, different D
+    "Options.load_options_file": ["multi", "multi", "subset", "multi-run"],
+    "init": ["subset", "reserved", "unknown", "multi"],            # order of defaults / user dict / protected set, the reserved name
+    "Options.__init__": ["subset", "reserved", "unknown", "multi"],
+    "validate": ["unknown", "unknown", "reserved", "subset"],      # which names are rejected
+    "Options.validate_option_names": ["unknown", "unknown", "reserved", "subset"],
+    "construct": ["subset", "unknown", "multi", "reserved"],       # basic / advanced order, what BADS passes
+    "BADS.__init__": ["subset", "unknown", "multi", "reserved"],
+    "census": ["multi", "subset", "unknown", "multi-run"],
+}
+
+
+def aim():
+    """(kinds, description): what translate/optionsclass.py says changed (the construct at which it stopped, or the parts of the translation
+    that differ from the reference snapshot) -> the scenario kinds to try first.  Only aims; decides nothing."""
+    cur, ex = TC.current()
+    kinds, desc = [], []
+    if cur is None:
+        where = getattr(ex, "where", None)
+        desc.append(f"translation stopped: {ex}"[:300])
+        for k, v in AIM.items():
+            if where and (where == k or where.startswith(k)):
+                kinds += v
+    else:
+        for d in TC.diff(cur):
+            desc.append(d["what"][:300])
+            kinds += AIM.get(d["part"], [])
+    return kinds, desc
+
+
 def search(ctx, broken):
-    """Something is broken and the tie's own pass found no concrete input: look harder with the monitor."""
+    """Something is broken and the tie's own pass found no concrete input: look harder with the monitor, first with scenarios AIMED at the part
+    of the class whose translation changed / stopped."""
     reported = set()
     try:
         C.files()
     except Exception:
         return False                      # the option files themselves are not translatable: nothing to run against
+    aimed, desc = aim()
+    ctx.coverage["search"] = dict(source_change=desc[:6], aimed_at=sorted(set(aimed)))
+    n_aimed = 600 if aimed else 0
+    tail = f"  [search aimed at: {'/'.join(sorted(set(aimed)))} scenarios]  [source change: {desc[0][:200]}]" if aimed and desc else ""
     with warnings.catch_warnings():
         warnings.simplefilter("ignore")
-        for j in range(1500):
-            kind = ("multi", "subset", "unknown", "multi-run")[j % 4] if j % 40 == 3 else ("multi", "subset", "unknown")[j % 3]
+        for j in range(1500 + n_aimed):
+            if j < n_aimed:
+                kind = aimed[j % len(aimed)]
+            else:
+                kind = ("multi", "subset", "unknown", "multi-run")[j % 4] if j % 40 == 3 else ("multi", "subset", "unknown")[j % 3]
+            if kind == "multi-run" and j % 10 != 3:
+                kind = "multi"
             sc = (C.t2_gen_multi(ctx.rng, j, runs=(kind == "multi-run")) if kind.startswith("multi") else
-                  C.t2_gen_single(ctx.rng, j) if kind == "subset" else C.t2_gen_unknown(ctx.rng, j))
+                  C.t2_gen_single(ctx.rng, j) if kind == "subset" else
+                  C.t2_gen_reserved(ctx.rng, j) if kind == "reserved" else C.t2_gen_unknown(ctx.rng, j))
             res = C.t2_run(sc, {}, want_codes=False)
             findings = list(res["findings"])
             C.check_alone(sc, res, lambda k, w: findings.append((k, w)))
             fresh = [(k, w) for k, w in findings if not any(kf.get("key") == k and kf.get("property") == "C20" and kf.get("status") == "open"
                                                             for kf in core.load_known())]
             if fresh:
-                _report(ctx, sc, fresh[0][0], fresh[0][1], reported)
+                _report(ctx, sc, fresh[0][0], fresh[0][1] + (tail if j < n_aimed else ""), reported)
                 return True
     return False
 
